@@ -77,6 +77,21 @@ def run(ctx):
             ctx.violation("never-other-key", case, ref and hex(ref), r.fields[0].hex())
         if r.tag == "err" and ref is not None:
             ctx.violation("spurious-error", case, hex(ref), r.msg[:200])
+    # unusual but accepted index spellings (leading zeros, '+'): if the path text is accepted it derives the key of the same integers
+    sp = []
+    for _ in range(24):
+        comps = [(rng.randrange(2), rng.choice([8, 9, 10, 44, 60, 64, 100, 511, 4095, rng.randrange(B31)])) for _ in range(rng.randrange(1, 5))]
+        text = "m/" + "/".join(rng.choice(["0", "00", "+", "+0", "000"]) + str(v) + ("'" if h else "") for h, v in comps)
+        sp.append((rbytes(rng, 32), comps, text))
+    rs = ctx.harness([("derive", s, t) for s, _, t in sp])
+    for (s, comps, t), r in zip(sp, rs):
+        ctx.count("index-spelling(may)")
+        ctx.distinct(("spell", s, t))
+        ref = pyref.bip32_derive(s, [v | (B31 if h else 0) for h, v in comps])
+        if r.tag == "ok" and (ref is None or r.fields[0] != ref.to_bytes(32, "big")):
+            ctx.violation("never-other-key(spelling)", dict(op="hdk::derive", seed=s.hex(), path=t), ref and hex(ref), r.fields[0].hex())
+        elif r.tag in ("panic", "abort", "timeout"):
+            ctx.violation("derive:abnormal", dict(op="hdk::derive", seed=s.hex(), path=t), "result or error", str(r)[:200])
     ctx.sample(dict(op="hdk::derive", seed=cases[0][0].hex(), path=text_of(cases[0][1]), key=impl[0].fields[0].hex() if impl[0].fields else None))
 
     # CLI: export --hd-path prints the same key as the library for the seed of a mnemonic (C16 covers this broadly)
